@@ -27,8 +27,8 @@ THEOREMS = [
     "Mpc.C06_iknp_or_store_zero_buffer_ok",
     "Mpc.C06_iknp_or_store_dirty_witness",
     "Mpc.C06_iknp_history_buffers",
-    "Mpc.C06_iknp_bits_dirty_partial",
-    "Mpc.C06_iknp_bits_dirty_witness",
+    "Mpc.C06_iknp_bits_dirty",
+    "Mpc.C06_iknp_bits_dirty_old_witness",
     # COT / ROT with MITCCRH (Model/Cot.lean)
     "Mpc.C06_cot_delivers",
     "Mpc.C06_rot_consistent",
@@ -118,7 +118,8 @@ def run(ctx):
                ["%s_%s" % (p, c) for p in ("iknp_label_buf", "iknp_bits_rbuf", "iknp_bits_sbuf", "cot_buf")
                 for c in ("fresh", "kept", "kept_subslice", "ones", "bytefill", "random")] + \
                ["iknp_label_buf_nonzero_before_call", "cot_buf_nonzero_before_call", "rot_send_into_nonzero_wires",
-                "iknp_bits_clean_buffers", "iknp_bits_dirty_buffers",
+                "iknp_bits_clean_buffers", "iknp_bits_dirty_buffers", "iknp_same_slice_as_previous_call_L",
+                "iknp_same_slice_as_previous_call_M", "iknp_same_slice_as_previous_call_B", "cot_same_slice_as_previous_call",
                 "co_buf_kept", "co_buf_ones", "co_buf_random", "cot_over_co_buf_random", "rot_over_co_buf_random"]
         missing = [k for k in need if not c.get(k)]
         ctx.oblige("generator reached every size class (n mod 8/64/128/512 in {0,+1,-1}, 5 chunks), all three IKNP "
@@ -136,7 +137,14 @@ def run(ctx):
                    "none generated")
         ctx.oblige("the ReceiveBits defect fixed by 564d319 does not reproduce on the real code", back == 0,
                    "%d packed-bit batches fail exactly as the old code (Lean: C06_iknp_bits_old_fails)" % back)
-        ctx.coverage["packed_bit_calls_on_nonzero_buffers_with_wrong_bits"] = c.get("bits_dirty_buffer_wrong_batches", 0)
+        # the SendBits/ReceiveBits defect repaired by 8f72c8a (result bits only ORed into the caller's words) must
+        # NOT reproduce: packed-bit calls on result buffers that are not zero are exercised and judged like any other
+        stale = c.get("bits_dirty_buffer_wrong_batches", 0)
+        ctx.coverage["packed_bit_calls_on_nonzero_buffers"] = c.get("iknp_bits_dirty_buffers", 0)
+        ctx.coverage["packed_bit_calls_on_nonzero_buffers_wrong_only_at_stale_bits"] = stale
+        ctx.oblige("the SendBits/ReceiveBits defect fixed by 8f72c8a does not reproduce on the real code", stale == 0,
+                   "%d packed-bit batches on non-zero result buffers are wrong exactly at positions that held a 1 "
+                   "(Lean: C06_iknp_bits_dirty_old_witness)" % stale)
         if ctx.broken and not [f for f in ctx.fails if not ctx.is_known(f)]:
             # widened search for a concrete failing input (oracle only)
             for s in range(ctx.seed + 7000, ctx.seed + 7004):
@@ -146,7 +154,9 @@ def run(ctx):
                 if [f for f in ctx.fails if not ctx.is_known(f)]:
                     break
     ctx.coverage["rule"] = (
-        "RESULT BUFFERS (iknp, cot modes; in the op lines, so the model runs the same contents): every call gets a fresh "
+        "RESULT BUFFERS (iknp, cot modes; in the op lines, so the model runs the same contents; the class of the first "
+        "call of every sweep case and a second call of the same form INTO THE SAME SLICE are planned by case index so that "
+        "every class is reached for every seed, all other calls draw at random): every call gets a fresh "
         "zeroed slice (2/5) or a slice [off, off+needed+extra) of the party's long-lived array of the history - kept as "
         "the earlier calls left it (the buffer of the previous call), or overwritten first with 0xff, another byte, or an "
         "AES-CTR stream; label form extra = 0 (Receive requires equal lengths), packed-bit form also longer-than-needed "
@@ -171,10 +181,9 @@ def run(ctx):
         "Chou-Orlandi: the theorems are in an abstract commutative group and exclude the point-at-infinity encodings (probability ~2^-256 on P-256); that P-256 (crypto/elliptic, and its Lean re-implementation Model/P256.lean executed for the byte-exact comparison) is such a group is trusted, not proved",
         "RSA: crypto/rsa keys are trusted to satisfy (k^e)^d = k mod N; math/big Exp with a negative base is modelled as Euclidean (non-negative) reduction; PKCS#1 block type 1 pad/unpad round trip is a hypothesis of the theorem",
         "malicious mode: only honest runs are covered here (the consistency check itself is C15); its messages seed2/x/t0/t1 are not compared with a model",
-        "KNOWN FINDING C06-bits-or-into-caller-buffer: SendBits/ReceiveBits OR their n result bits into the caller's words "
-        "instead of overwriting them (their doc comments say 'Existing contents are overwritten'): on a buffer that is not "
-        "zero the packed-bit correlation fails exactly at positions that held a 1 (C06_iknp_bits_dirty_witness; "
-        "C06_iknp_bits_dirty_partial proves result = old content OR correct result); gmw/triples.go passes fresh slices",
+        "packed-bit form: the correspondence and the oracle run on result buffers of every content (SendBits/ReceiveBits "
+        "write each of their n bits since 8f72c8a; C06_iknp_bits_dirty); bits at positions >= n are required to stay as "
+        "they were",
         "p2p.Conn / ot.Pipe are trusted transports (C11)",
     ]
     return ctx.finish(
@@ -184,7 +193,9 @@ def run(ctx):
         "(C06_iknp_transpose_into), so Receive's rows are independent of the initial content of the caller's result "
         "buffer (C06_iknp_receive_buffer_independent) and every history of calls with arbitrary result buffers - fresh, "
         "the previous call's, windows of arrays with arbitrary content - delivers (C06_iknp_history_buffers; the "
-        "OR-into-destination variant is shown equal on zero buffers and wrong on a non-zero one); packed-bit form r_j = s_j xor (Delta.Bit(0) and c_j) for every n "
+        "OR-into-destination variant is shown equal on zero buffers and wrong on a non-zero one; packed-bit calls on "
+        "every content of both result slices: every position < n correct, positions >= n unchanged, "
+        "C06_iknp_bits_dirty, the pre-8f72c8a OR-only store kept as BitStore.orOnly with its negation witness); packed-bit form r_j = s_j xor (Delta.Bit(0) and c_j) for every n "
         "(the pre-564d319 word count is kept as receiveBitsOld with its negation theorem); COT/ROT deliver for every batch size and every MITCCRH cipher; CO masks agree and the HEAD helpers deliver in every commutative group, COT over IKNP over CO base OTs (roles reversed) delivers (C06_iknp_over_co); "
         "RSA OT recovers the blinding key. Tie: real IKNP sender/receiver, COT, ROT, MITCCRH run with "
         "deterministic tapes, u-matrix bytes / label vectors / packed words / ciphertexts compared byte for byte with "
